@@ -534,6 +534,67 @@ impl World {
         (reply, obs)
     }
 
+    /// A SYN from (sa, sp) to (da, dp) whose handshake never completes: the wire loses every
+    /// answer (no ACK, no RST ever goes back) and keeps turning until the server side has given
+    /// up retransmitting its SYN-ACK.  Returns the kind of the first answer.
+    fn stall_syn(&mut self, from: usize, fam: u8, sa: &str, sp: u16, da: &str, dp: u16) -> String {
+        let src = ip_of(sa, fam);
+        let dst = ip_of(da, fam);
+        let is_reply = move |p: &Packet| match &p.payload {
+            Transport::Tcp(s) => p.dst == src && p.src == dst && s.dst_port == sp && s.src_port == dp,
+            _ => false,
+        };
+        self.guard.deliver(Packet {
+            src,
+            dst,
+            ttl: 64,
+            payload: Transport::Tcp(TcpSegment {
+                src_port: sp,
+                dst_port: dp,
+                seq: 1000,
+                ack: 0,
+                flags: TcpFlags { syn: true, ..TcpFlags::default() },
+                window: 65535,
+                payload: Bytes::new(),
+            }),
+        });
+        let mut reply = "none".to_string();
+        let mut quiet = 0;
+        let mut out = Vec::new();
+        // retx_threshold (3) x (retx_max (5) + 1) egress passes exhaust the budget; go on until the
+        // stack has been silent towards the client for a while
+        for _ in 0..400 {
+            self.guard.egress_all(&mut out);
+            let mut answered = false;
+            for p in out.drain(..) {
+                if is_reply(&p) {
+                    answered = true;
+                    if reply == "none" {
+                        if let Transport::Tcp(s) = &p.payload {
+                            reply = if s.flags.syn && s.flags.ack {
+                                "synack"
+                            } else if s.flags.rst {
+                                "rst"
+                            } else {
+                                "ack"
+                            }
+                            .to_string();
+                        }
+                    }
+                    // lost
+                } else {
+                    self.guard.deliver(p);
+                }
+            }
+            quiet = if answered { 0 } else { quiet + 1 };
+            if quiet >= 12 {
+                break;
+            }
+        }
+        self.emit(json!({"ev":"stall","from":from,"fam":fam,"sa":sa,"sp":sp,"da":da,"dp":dp,"reply":reply}));
+        reply
+    }
+
     /// Tagged bytes written on stream `c`; returns the stream sids that read them.
     fn probe_data(&mut self, c: usize) -> Vec<i64> {
         let tag = self.next_tag();
@@ -728,6 +789,22 @@ fn replay_one(beh: &[Value], cfg: &ReplayCfg, record: bool) -> (Option<Value>, V
                 }
                 if !same {
                     mism = Some(json!({"what":"connect","want":act,"got":ev}));
+                }
+            }
+            "stall" => {
+                let reply = w.stall_syn(
+                    act["from"].as_u64().unwrap() as usize,
+                    act["fam"].as_u64().unwrap() as u8,
+                    act["sa"].as_str().unwrap(),
+                    act["sp"].as_u64().unwrap() as u16,
+                    act["da"].as_str().unwrap(),
+                    act["dp"].as_u64().unwrap() as u16,
+                );
+                if reply != "synack" {
+                    saw_err = true;
+                }
+                if reply != act["reply"].as_str().unwrap() {
+                    mism = Some(json!({"what":"stall","want":act,"got":{"res":reply}}));
                 }
             }
             other => panic!("unknown action {other}"),
@@ -1027,6 +1104,21 @@ fn random_run(rng: &mut StdRng, n: usize, ops: usize, probes: usize, all: &mut V
                 let s = m.udp[rng.random_range(0..m.udp.len())];
                 let pa = ["a1", "b1", "a2", "c1"][rng.random_range(0..if n >= 3 { 4 } else { 3 })];
                 w.connect_udp(s, pa, PROBE_PORT);
+            }
+        } else if r < 76 && !m.listeners.is_empty() {
+            // a handshake towards a live listener that stalls until the server gives up; often the
+            // listener is closed right afterwards and its port bound again
+            let i = rng.random_range(0..m.listeners.len());
+            let l = m.listeners[i];
+            let froms: Vec<usize> = (1..=n).filter(|&h| h != l.1).collect();
+            let from = froms[rng.random_range(0..froms.len())];
+            let da = host_addr_names(l.1)[rng.random_range(0..2)];
+            w.stall_syn(from, l.2, first_addr(from), SYN_PORT, da, l.3);
+            if rng.random_bool(0.6) {
+                let l = m.listeners.swap_remove(i);
+                w.close(&[l.0]);
+                m.bound.retain(|b| b.0 != l.0);
+                m.orphaned = Some((l.1, l.2, l.3));
             }
         } else {
             // TCP connect: to a live listener's port on the host the address leads to, or to a
